@@ -55,7 +55,9 @@ func main() {
 	maxops := fs.Int("maxops", 14, "maximum history length")
 	bigevery := fs.Int("bigevery", 0, "one object in this many may be large")
 	queries := fs.Int("queries", 2, "up to this many read-only queries after each step")
+	thorough := fs.Bool("thorough", false, "crash family: every byte of table writes")
 	corpus := fs.Int("corpus", 0, "load family: include shipped images up to this size in bytes")
+	mode := fs.String("mode", "tamper", "verify family: tamper, coverage, ...")
 	_ = fs.Parse(os.Args[2:])
 	if *out == "" {
 		fmt.Fprintln(os.Stderr, "-out required")
@@ -76,10 +78,16 @@ func main() {
 		s = runHist(*seed, *n, *shards, *out, tmp, *backend, h.GenParams{
 			MaxCap: *maxcap, MinOps: *minops, MaxOps: *maxops, BigEvery: *bigevery, Queries: *queries,
 		})
+	case "crash":
+		s = runCrash(*seed, *n, *shards, *out, tmp, *thorough, h.GenParams{
+			MaxCap: *maxcap, MinOps: *minops, MaxOps: *maxops, BigEvery: *bigevery, Queries: 0, Backend: "buf",
+		})
 	case "determ":
 		s = runDeterm(*seed, *n, *shards, *out, tmp, h.GenParams{
 			MaxCap: *maxcap, MinOps: *minops, MaxOps: *maxops, BigEvery: *bigevery, Queries: 0, DetMode: true,
 		})
+	case "verify":
+		s = runVerify(*seed, *n, *shards, *out, *mode, *thorough)
 	case "backend":
 		s = runBackend(*seed, *n, *shards, *out, tmp)
 	case "lockstep":
@@ -611,5 +619,70 @@ func runDeterm(seed uint64, n, shards int, out, tmp string, p h.GenParams) summa
 	s.Cases = len(cases)
 	s.Distinct = len(distinct)
 	writeShards(&s, cases, shards, out, "determ")
+	return s
+}
+
+// runCrash: C09. For pre-states reached by random histories, one more operation is recorded call
+// by call; every crash point (between calls, torn writes) is reconstructed and loaded, and every
+// call is made to fail once.
+func runCrash(seed uint64, n, shards int, out, tmp string, thorough bool, p h.GenParams) summary {
+	s := summary{
+		Family: "crash", Seed: seed, OpKinds: map[string]int{}, Results: map[string]int{},
+		Backends: map[string]int{}, Caps: map[string]int{}, OracleRuns: map[string]int{},
+		Extra: map[string]any{},
+	}
+	root := h.NewRng(seed)
+	var cases []h.Case
+	distinct := map[string]bool{}
+	var st h.CrashStats
+	id := 0
+	for i := 0; i < n; i++ {
+		r := root.Fork()
+		c := h.GenHistory(r, 0, p)
+		if len(c.Steps) == 0 {
+			continue
+		}
+		if _, err := h.RunCase(&c, tmp); err != nil {
+			fmt.Fprintln(os.Stderr, "harness error:", err)
+			os.Exit(3)
+		}
+		if !c.HasHandle {
+			continue
+		}
+		// every step of the history is a (pre-state, operation) pair
+		pre := c.InitObs.Store
+		for j, stp := range c.Steps {
+			if stp.Op.Kind != h.OpReload && (j%2 == i%2 || len(c.Steps) < 4) {
+				id++
+				calls, res, fs := h.OracleCrash(id, pre, stp.Op, thorough, &st)
+				s.Oracle = append(s.Oracle, fs...)
+				s.OracleRuns["crash-pairs"]++
+				if calls != nil {
+					op := stp.Op
+					mc := h.Case{ID: id, Backend: "buf", LoadBytes: pre, Steps: []h.Step{{Op: op, Trace: calls}}}
+					if _, err := h.RunCase(&mc, tmp); err != nil {
+						fmt.Fprintln(os.Stderr, "harness error:", err)
+						os.Exit(3)
+					}
+					if len(mc.Steps) == 1 && mc.Steps[0].Obs.Res != res {
+						s.Oracle = append(s.Oracle, h.Finding{Property: "C09", Case: id, What: "result differs between recorded and plain run: " + res + " / " + mc.Steps[0].Obs.Res})
+					}
+					tally(&s, &mc, distinct)
+					cases = append(cases, mc)
+					if len(s.Samples) < 3 {
+						s.Samples = append(s.Samples, fmt.Sprintf("case %d: %s on a %d-byte image -> %s, %d storage calls", id, op.KindName(), len(pre), res, len(calls)))
+					}
+				}
+			}
+			pre = stp.Obs.Store
+		}
+	}
+	s.Extra["crash_points_between_calls"] = st.Boundaries
+	s.Extra["torn_write_points"] = st.Torn
+	s.Extra["injected_failures"] = st.Faults
+	s.Extra["injected_short_writes"] = st.ShortWrites
+	s.Cases = len(cases)
+	s.Distinct = len(distinct)
+	writeShards(&s, cases, shards, out, "crash")
 	return s
 }
